@@ -367,6 +367,10 @@ func PersistReload(cfg fw.Config, rec *fw.Rec, idx int, prefix string) {
 	if idx%2 == 1 {
 		again = append([]op{again[0], {Kind: "msg", Via: "captain", Mid: "again", Uid: "a0"}}, again[1:]...)
 	}
+	// ... and a machine whose spec has a null node, where it parks before the restarts
+	pspec := fmt.Sprintf("parking-%d-0", idx)
+	h = append([]op{{Kind: "create", Via: "captain", Mid: "pm", Spec: pspec}, {Kind: "msg", Via: "captain", Mid: "pm", Uid: "p1"}, {Kind: "msg", Via: "captain", Mid: "pm", Uid: "p2"}}, h...)
+	h = append(h, op{Kind: "msg", Via: "captain", Mid: "pm", Uid: "p3"}, op{Kind: "msg", Via: "captain", Mid: "pm", Uid: "p4"})
 	h = append(again, h...)
 	h = append(h, op{Kind: "msg", Via: "captain", Mid: "again", Uid: "a1"}, op{Kind: "msg", Via: "captain", Mid: "again", Uid: "a2"})
 	var lines []string
@@ -381,7 +385,7 @@ func PersistReload(cfg fw.Config, rec *fw.Rec, idx int, prefix string) {
 	if !ok {
 		return
 	}
-	k := 5 + r.Intn(len(lines)-10)
+	k := 8 + r.Intn(len(lines)-14)
 	_, _, file1, ok := runStdio(rec, replay, dir, "P1", "", lines[:k])
 	if !ok {
 		return
